@@ -83,7 +83,159 @@ def run(chk, tier, overlays=()):
         for b, i, e in upds:
             n += judge_site(chk, P, f, b, i, e, idx_of(e))
     measures(chk, P)
+    definitions(chk, P)
     chk.floor("PAIRCALL", 11)
+
+
+# ----------------------------------------------------------------- DEFN
+MI = "SimTK::Measure_::"
+ARITH = {"Plus": ("+", ("left", "right")), "Minus": ("-", ("left", "right")), "Scale": ("*", ("factor", "operand"))}
+EXTREME_CMP = {"Maximum": (">", False), "Minimum": ("<", False), "MaxAbs": (">", True), "MinAbs": ("<", True)}
+EXTREME_INIT = {"Minimum": "+inf", "Maximum": "-inf", "MinAbs": "+inf", "MaxAbs": "0"}
+
+
+def definitions(chk, P):
+    chk.rule("DEFN", "the routing each built-in measure's definition prescribes (what is combined with what, never the values): Plus / Minus / Scale combine their own "
+             "operands' values of the requested derivative order with +, -, *; Integrate's zdot is its DERIVATIVE measure, its initial z its INITIAL-CONDITION measure (or the "
+             "default), its value the z it allocated and its k-th derivative the derivative measure's (k-1)-th, all at zIndex+i; Extreme compares (new, old) with the operator "
+             "of its operation (> / < on values or on absolute values) in a switch that covers every operation, starts from the neutral element of that operation and keeps the "
+             "new value exactly when it is a new extreme; Delay evaluates its buffer at time - delay")
+    last = lambda n: str(n).split("::")[-1]
+
+    def fn(cls, name):
+        fs = P.fns_named(MI + cls + "::Implementation::" + name)
+        chk.require(bool(fs), "anchor vanished: Measure_<T>::%s::Implementation::%s" % (cls, name))
+        return fs[0] if fs else None
+
+    def member(x):
+        ms = sx_find(x, lambda y: y[0] == "mem" and y[1] == ["this"])
+        return last(ms[0][2]) if ms else None
+    # arithmetic
+    for cls, (op, (a, b)) in sorted(ARITH.items()):
+        f = fn(cls, "calcCachedValueVirtual")
+        if not f:
+            continue
+        ps = [p_[0] for p_ in f.d["params"]]
+        asg = [e for _, _, e in f.events(lambda e: e["k"] == "assign" and var_of(e["lhs"]) == ps[2])]
+        ok = len(asg) == 1 and isinstance(asg[0]["rhs"], list) and asg[0]["rhs"][0] in ("opc", "op") and asg[0]["rhs"][1] == op and len(asg[0]["rhs"]) == 4
+        det = "value = %s" % (sx_str(asg[0]["rhs"])[:90] if asg else None)
+        if ok:
+            l, r = asg[0]["rhs"][2], asg[0]["rhs"][3]
+            ok = member(l) == a and member(r) == b
+            for x in (l, r):
+                c = sx_find(x, lambda y: y[0] in ("dcall", "call") and last(y[1]) == "getValue")
+                if c:
+                    ok = ok and [var_of(z) for z in c[0][3]] == ps[:2]
+                elif not (cls == "Scale" and member(x) == "factor"):
+                    ok = False
+        chk.judge(ok, "DEFN", "%s:value=%s %s %s" % (cls, a, op, b), f.loc, det)
+    # Integrate
+    f = fn("Integrate", "realizeMeasureAccelerationVirtual")
+    if f:
+        decls = {d["var"]: d for _, _, d in f.events(lambda d: d["k"] == "decl")}
+        w = [e for _, _, e in f.events(lambda e: e["k"] == "assign" and isinstance(e["lhs"], list) and e["lhs"][0] == "opc" and e["lhs"][1] == "[]")]
+        ok = len(w) == 1
+        if ok:
+            tgt = var_of(w[0]["lhs"][2])
+            ok = tgt in decls and bool(sx_find(decls[tgt]["init"], lambda y: y[0] in ("call", "dcall") and last(y[1]) == "updZDot")) and \
+                bool(sx_find(w[0]["lhs"][3], lambda y: y[0] == "mem" and last(y[2]) == "zIndex"))
+            srcv = [y[1] for y in sx_find(w[0]["rhs"], lambda y: y[0] == "var") if y[1] in decls and decls[y[1]].get("init") is not None and
+                    sx_find(decls[y[1]]["init"], lambda z: z[0] in ("call", "dcall") and last(z[1]) == "getValue")]
+            ok = ok and len(srcv) == 1 and member(decls[srcv[0]]["init"]) == "derivMeasure"
+        chk.judge(ok, "DEFN", "Integrate:zdot[zIndex+i]<-derivMeasure", f.loc, "the integrand written to zdot is the derivative measure's value (not the initial-condition measure)")
+    f = fn("Integrate", "initializeVirtual")
+    if f:
+        decls = {d["var"]: d for _, _, d in f.events(lambda d: d["k"] == "decl")}
+        w = [e for _, _, e in f.events(lambda e: e["k"] == "assign" and isinstance(e["lhs"], list) and e["lhs"][0] == "opc" and e["lhs"][1] == "[]")]
+        srcs = set()
+        okz = True
+        for e in w:
+            tgt = var_of(e["lhs"][2])
+            okz = okz and tgt in decls and bool(sx_find(decls[tgt]["init"], lambda y: y[0] in ("call", "dcall") and last(y[1]) == "updZ")) and \
+                bool(sx_find(e["lhs"][3], lambda y: y[0] == "mem" and last(y[2]) == "zIndex"))
+            vs = [y[1] for y in sx_find(e["rhs"], lambda y: y[0] == "var") if y[1] in decls and decls[y[1]].get("init") is not None]
+            for v in vs:
+                if v != tgt and member(decls[v]["init"]):
+                    srcs.add(member(decls[v]["init"]))
+            if sx_find(e["rhs"], lambda y: y[0] in ("call", "dcall") and last(y[1]) == "getDefaultValue"):
+                srcs.add("default")
+        chk.judge(len(w) == 2 and okz and srcs == {"icMeasure", "default"}, "DEFN", "Integrate:z0<-icMeasure-or-default", f.loc, "initial z comes from %s" % sorted(str(x) for x in srcs))
+    f = fn("Integrate", "getUncachedValueVirtual")
+    if f:
+        r = [e for _, _, e in f.events(lambda e: e["k"] == "ret")]
+        ps = [p_[0] for p_ in f.d["params"]]
+        ok = len(r) == 1
+        if ok:
+            c = sx_find(r[0]["val"], lambda y: y[0] in ("call", "dcall") and last(y[1]) == "getValue")
+            ok = bool(c) and bool(sx_find(c[0][2], lambda y: y[0] in ("call", "dcall") and last(y[1]) == "getDerivativeMeasure")) and len(c[0][3]) == 2 and \
+                var_of(c[0][3][0]) == ps[0] and c[0][3][1] == ["op", "-", ["var", ps[1]], ["lit", "1"]]
+        chk.judge(ok, "DEFN", "Integrate:derivative(k)=derivMeasure(k-1)", f.loc, "returns %s" % (sx_str(r[0]["val"]) if r else None))
+    f = fn("Integrate", "calcCachedValueVirtual")
+    if f:
+        decls = {d["var"]: d for _, _, d in f.events(lambda d: d["k"] == "decl")}
+        w = [e for _, _, e in f.events(lambda e: e["k"] == "assign" and e.get("rhs") is not None and bool(sx_find(e["rhs"], lambda y: y[0] == "mem" and last(y[2]) == "zIndex")))]
+        ok = len(w) == 1
+        if ok:
+            zs = [y[1] for y in sx_find(w[0]["rhs"], lambda y: y[0] == "var") if y[1] in decls and decls[y[1]].get("init") is not None and
+                  sx_find(decls[y[1]]["init"], lambda z: z[0] in ("call", "dcall") and last(z[1]) == "getZ")]
+            ok = len(zs) == 1
+        chk.judge(ok, "DEFN", "Integrate:value<-z[zIndex+i]", f.loc, "the value is read from the z's the measure allocated")
+    # Extreme
+    f = fn("Extreme", "isNewExtreme")
+    if f:
+        ps = [p_[0] for p_ in f.d["params"]]
+        sw = [(b, blk["term"]) for b, blk in f.blocks.items() if blk.get("term") and blk["term"]["k"] == "switch"]
+        chk.shape(len(sw) == 1, "DEFN", "Extreme:isNewExtreme:switch", f.loc, "one switch over the operation")
+        if len(sw) == 1:
+            have = sorted(last(c[1]) for c in sw[0][1]["cases"] if isinstance(c, list) and c[0] == "enum")
+            chk.judge(have == sorted(EXTREME_CMP), "DEFN", "Extreme:isNewExtreme:covers-every-operation", f.loc, "cases %s" % have)
+            for b, blk in sorted(f.blocks.items()):
+                c = blk.get("case")
+                if not (isinstance(c, list) and c[0] == "enum" and last(c[1]) in EXTREME_CMP):
+                    continue
+                op, absd = EXTREME_CMP[last(c[1])]
+                r = [e for e in blk["ev"] if e["k"] == "ret"]
+                ok = len(r) == 1 and isinstance(r[0]["val"], list) and r[0]["val"][0] in ("opc", "op") and r[0]["val"][1] == op
+                if ok:
+                    l, rr = r[0]["val"][2], r[0]["val"][3]
+                    isabs = lambda x: isinstance(x, list) and x[0] in ("dcall", "call") and last(x[1]) == "abs"
+                    ok = (isabs(l) and isabs(rr)) == absd and [y[1] for y in sx_find(l, lambda y: y[0] == "var")] == [ps[0]] and [y[1] for y in sx_find(rr, lambda y: y[0] == "var")] == [ps[1]]
+                chk.judge(ok, "DEFN", "Extreme:%s:new %s old%s" % (last(c[1]), op, " (absolute values)" if absd else ""), "%s:%d" % (f.file, r[0]["line"] if r else f.line),
+                          "returns %s" % (sx_str(r[0]["val"]) if r else None))
+    f = fn("Extreme", "extremeOf")
+    if f:
+        r = [e for _, _, e in f.events(lambda e: e["k"] == "ret")]
+        ps = [p_[0] for p_ in f.d["params"]]
+        ok = len(r) == 1 and isinstance(r[0]["val"], list) and r[0]["val"][0] == "cond"
+        if ok:
+            c = r[0]["val"]
+            ok = bool(sx_find(c[1], lambda y: y[0] in ("call", "dcall") and last(y[1]) == "isNewExtreme" and [var_of(z) for z in y[3]] == ps)) and var_of(c[2]) == ps[0] and var_of(c[3]) == ps[1]
+        chk.judge(ok, "DEFN", "Extreme:extremeOf=isNew?new:old", f.loc, "returns %s" % (sx_str(r[0]["val"]) if r else None))
+    f = fn("Extreme", "realizeMeasureTopologyVirtual")
+    if f:
+        got = {}
+        for b, blk in f.blocks.items():
+            c = blk.get("case")
+            if isinstance(c, list) and c[0] == "enum":
+                for e in blk["ev"]:
+                    if e["k"] == "assign" or (e["k"] == "call" and e.get("op") == "="):
+                        x = e.get("rhs") if e["k"] == "assign" else e["x"][3]
+                        neg = bool(sx_find(x, lambda y: (y[0] == "un" and y[1] == "-") or (y[0] == "opc" and y[1] == "-" and len(y) == 3)))
+                        inf = bool(sx_find(x, lambda y: y[0] == "gvar" and last(y[1]) == "Infinity"))
+                        zero = bool(sx_find(x, lambda y: y[0] == "lit" and y[1] in ("0", "0.0")))
+                        got[last(c[1])] = ("-inf" if neg else "+inf") if inf else ("0" if zero else sx_str(x))
+        chk.judge(got == EXTREME_INIT, "DEFN", "Extreme:initial-value-is-neutral-element", f.loc, "initial values %s (required %s)" % (got, EXTREME_INIT))
+    # Delay
+    f = fn("Delay", "calcCachedValueVirtual")
+    if f:
+        cs = [e for _, _, e in f.calls() if last(e.get("fn", "")).startswith("calcValueAtTime")]
+        ok = len(cs) == 1
+        if ok:
+            a = call_args(cs[0])[0]
+            ok = isinstance(a, list) and a[0] in ("op", "opc") and a[1] == "-" and bool(sx_find(a[2], lambda y: y[0] in ("call", "dcall") and last(y[1]) == "getTime")) and \
+                bool(sx_find(a[3], lambda y: y[0] == "mem" and last(y[2]) == "m_delay"))
+        chk.judge(ok, "DEFN", "Delay:value=buffer(time - delay)", f.loc, "the buffer is evaluated at %s" % (sx_str(call_args(cs[0])[0]) if cs else None))
+    chk.floor("DEFN", 12)
 
 
 def marks_index(P, q, ix, depth=1):
@@ -159,7 +311,19 @@ def measures(chk, P):
 
 _M = "SimTKcommon/Simulation/include/SimTKcommon/internal/MeasureImplementation.h"
 _X = "Simbody/src/ExponentialSpringForce.cpp"
+_MI = "SimTKcommon/Simulation/include/SimTKcommon/internal/MeasureImplementation.h"
 MUTATIONS = [
+    dict(name="Integrate integrates its initial-condition measure instead of its derivative measure", arm=True, file=_MI,
+         old="            const T& deriv = derivMeasure.getValue(s);\n             for (int i=0; i < this->size(); ++i)", new="            const T& deriv = icMeasure.getValue(s);\n             for (int i=0; i < this->size(); ++i)",
+         expect="DEFN:Integrate:zdot"),
+    dict(name="Measure::Minus adds its operands (copy-paste from Plus)", file=_MI,
+         old="        value = left.getValue(s,derivOrder) - right.getValue(s,derivOrder);", new="        value = left.getValue(s,derivOrder) + right.getValue(s,derivOrder);", expect="DEFN:Minus"),
+    dict(name="MinAbs compares raw values", file=_MI,
+         old="        case Extreme::MinAbs: return std::abs(newVal) < std::abs(oldExtreme);", new="        case Extreme::MinAbs: return newVal < oldExtreme;", expect="DEFN:Extreme:MinAbs"),
+    dict(name="Maximum starts from +Infinity", file=_MI,
+         old="        case Maximum: initVal = -Infinity; break;", new="        case Maximum: initVal = Infinity; break;", expect="DEFN:Extreme:initial-value"),
+    dict(name="Delay evaluates its buffer at time + delay", file=_MI,
+         old="        buffer.calcValueAtTimeLinearOnly(s.getTime()-m_delay, value);", new="        buffer.calcValueAtTimeLinearOnly(s.getTime()+m_delay, value);", expect="DEFN:Delay"),
     dict(name="Differentiate forgets to mark its result realized", arm=True, file=_M,
          old="        subsys.markDiscreteVarUpdateValueRealized(s,resultIx);", new="        ;", expect="PAIRCALL:Measure_::Differentiate::Implementation::ensureDerivativeIsRealized:resultIx"),
     dict(name="Extreme marks the flag slot twice instead of the extreme slot", file=_M,
